@@ -858,6 +858,13 @@ func (s *Session) closeSession() error {
 	return intstream.Close(s.Conn(), &s.out.Info)
 }
 
+// outputClosed reports whether the output stream has been closed.
+func (s *Session) outputClosed() bool {
+	s.stateMutex.RLock()
+	defer s.stateMutex.RUnlock()
+	return s.state&OutputStreamClosed == OutputStreamClosed
+}
+
 // State returns the current state of the session. For more information, see the
 // SessionState type.
 func (s *Session) State() SessionState {
@@ -910,6 +917,9 @@ func (s *Session) Encode(ctx context.Context, v interface{}) error {
 	defer s.out.Unlock()
 
 	defer setWriteDeadline(ctx, s.conn)()
+	if s.outputClosed() {
+		return ErrOutputStreamClosed
+	}
 	return marshal.EncodeXML(s.out.e, v)
 }
 
@@ -922,6 +932,9 @@ func (s *Session) EncodeElement(ctx context.Context, v interface{}, start xml.St
 	defer s.out.Unlock()
 
 	defer setWriteDeadline(ctx, s.conn)()
+	if s.outputClosed() {
+		return ErrOutputStreamClosed
+	}
 	return marshal.EncodeXMLElement(s.out.e, v, start)
 }
 
@@ -945,6 +958,10 @@ func send(ctx context.Context, s *Session, r xml.TokenReader, start *xml.StartEl
 	defer s.out.Unlock()
 
 	defer setWriteDeadline(ctx, s.conn)()
+
+	if s.outputClosed() {
+		return ErrOutputStreamClosed
+	}
 
 	if start == nil {
 		tok, err := r.Token()
